@@ -27,6 +27,7 @@ type c08Case struct {
 		L       int    `json:"L"`
 		Post    int    `json:"post"`
 		Order   string `json:"order"`
+		Emd     string `json:"emd"`
 		Spc     []int  `json:"spc"`
 		Uniform bool   `json:"uniform"`
 		Gap     int    `json:"gap"`
@@ -87,6 +88,13 @@ func c08Replay(args []string) error {
 			return err
 		}
 		specPS := c.Lay.Pre + c.Lay.Hdr
+		var emdB, emdA []byte // optional empty mdat box before / after the data mdat
+		if c.Lay.Emd == "before" {
+			specPS += 8
+			emdB = mkBox("mdat")
+		} else if c.Lay.Emd == "after" {
+			emdA = mkBox("mdat")
+		}
 		large := c.Lay.Hdr == 16
 		if c.Kind == "range" {
 			key := fmt.Sprint(c.Lay)
@@ -101,13 +109,13 @@ func c08Replay(args []string) error {
 				switch c.Lay.Order {
 				case "moov-mdat":
 					f, base := buildProgFile(stbl, []int{0}, false, payload, nil, 1000, 1, large)
-					b = built{cat(f, post), base}
+					b = built{cat(f, emdA, post), base}
 				case "mdat-moov":
 					ftyp := mFtyp("isom", 0x200, "isom")
-					base := len(ftyp) + c.Lay.Hdr
+					base := len(ftyp) + len(emdB) + c.Lay.Hdr
 					trak := mTrak(1, 1000, 1, true, nil, append(stbl, mStco([]int64{int64(base)}))...)
 					moov := mkBox("moov", mMvhd(1000, 1, 2), trak)
-					b = built{cat(ftyp, mMdat(payload, large), moov, post), base}
+					b = built{cat(ftyp, emdB, mMdat(payload, large), emdA, moov, post), base}
 				case "frag":
 					ini := mFragInit([]int64{1}, 1000)
 					frag := mSimpleFragment(1, 1, 0, []mSample{{1, int64(c.Lay.L), 0, 0}}, payload, large)
